@@ -254,7 +254,7 @@ func seqOp(r *Rand, style string, txt string, tuple []string) string {
 	return op
 }
 
-func genSeqStrings(r *Rand, n int, thorough bool, emit func(string)) {
+func genSeqStrings(r *Rand, n int, thorough bool, c04 bool, emit func(string)) {
 	if thorough {
 		// every string of length <= 4 over a 13-symbol alphabet (pins the regex character classes)
 		alpha := "a1-x,#@%d$F.\n"
@@ -322,7 +322,11 @@ func genSeqStrings(r *Rand, n int, thorough bool, emit func(string)) {
 			if r.Chance(1, 6) {
 				path = d + b + e // no frame at all
 			}
-			emit(seqOp(r, style, path, []string{"single"}))
+			if c04 {
+				emit(seqOp(r, style, path, []string{"single"}))
+			} else {
+				emit(seqOp(r, style, path, nil))
+			}
 		case 2: // mutated
 			emit(seqOp(r, style, mutate(r, d+b+rg+p+e), nil))
 		default:
